@@ -413,3 +413,74 @@ Example ex_prog_simplified :
                                        App (Lam 2 [] false [] (App (Op 1) [Lit (CInt 3); Ref 11 1])) []])) [Lit (CInt 7)]
   /\ eval (simplify ex_prog [] true) ([], []) = (Some (CInt 36), ([], [CInt 12])).
 Proof. vm_compute. split; reflexivity. Qed.
+
+(** ------------------------------------------------------------------ the entry point sexp_simplify (no enclosing lambda:
+    the `lambda &&` guard keeps let bodies untouched, only folding / literal tests / statement dropping happen) *)
+Definition sound0 (e : expr) : Prop := forall s v s1, eval e s = (Some v, s1) -> eval (simplify e [] false) s = (Some v, s1).
+
+Lemma args_sound0 es : Forall sound0 es -> forall s vs s1,
+  eval_args es s = (Some vs, s1) -> eval_args (map (fun a => simplify a [] false) es) s = (Some vs, s1).
+Proof.
+  induction 1 as [|a es Ha Hes IH]; intros s vs s1 Hev; [exact Hev|].
+  cbn [eval_args] in Hev. destruct (eval_args es s) as [[vs'|] s2] eqn:Ees; [|discriminate].
+  destruct (eval a s2) as [[v|] s3] eqn:Ea; [|discriminate]. inversion Hev; subst.
+  cbn [map eval_args]. rewrite (IH _ _ _ Ees), (Ha _ _ _ Ea). reflexivity.
+Qed.
+
+Lemma seq_sound0 es : Forall sound0 es -> forall s v s1,
+  eval_seq es s = (Some v, s1) -> eval_seq (seq_filter (map (fun a => simplify a [] false) es)) s = (Some v, s1).
+Proof.
+  induction 1 as [|a es Ha Hes IH]; intros s v s1 Hev; [cbn in Hev; discriminate|].
+  destruct es as [|b es].
+  - cbn [eval_seq] in Hev. cbn [map seq_filter eval_seq]. apply Ha. exact Hev.
+  - cbn [eval_seq] in Hev. destruct (eval a s) as [[va|] s2] eqn:Ea; [|discriminate].
+    pose proof (Ha _ _ _ Ea) as E2. pose proof (IH _ _ _ Hev) as E1.
+    change (map (fun a0 => simplify a0 [] false) (a :: b :: es))
+      with (simplify a [] false :: map (fun a0 => simplify a0 [] false) (b :: es)).
+    set (rest := map (fun a0 => simplify a0 [] false) (b :: es)) in *.
+    assert (seq_filter (simplify a [] false :: rest)
+            = if droppable (simplify a [] false) then seq_filter rest else simplify a [] false :: seq_filter rest) as EF.
+    { unfold rest. cbn [map seq_filter]. reflexivity. }
+    rewrite EF. destruct (droppable (simplify a [] false)) eqn:ED.
+    + pose proof (droppable_pure _ _ _ _ ED E2) as Es. subst s2. exact E1.
+    + destruct (seq_filter rest) as [|y t] eqn:ER; [exfalso; unfold rest in ER; cbn [map] in ER; exact (seq_filter_nonnil _ _ ER)|].
+      cbn [eval_seq]. rewrite E2. exact E1.
+Qed.
+
+Theorem sexp_simplify_sound_gen : forall e, sound0 e.
+Proof.
+  induction e using expr_ind2; unfold sound0; intros s v s1 Hev.
+  - exact Hev.
+  - exact Hev.
+  - exact Hev.
+  - cbn [eval] in Hev. destruct (eval e s) as [[c|] [r2 o2]] eqn:Ee; [|discriminate].
+    cbn [simplify eval]. rewrite (IHe _ _ _ Ee). exact Hev.
+  - cbn [eval] in Hev. destruct (eval e1 s) as [[c|] s2] eqn:Et; [|discriminate].
+    pose proof (IHe1 _ _ _ Et) as E2. cbn [simplify].
+    destruct (simple (simplify e1 [] false)) as [c0|] eqn:ES.
+    + destruct (simplify e1 [] false); cbn [simple] in ES; try discriminate. inversion ES; subst c1.
+      cbn in E2. inversion E2; subst c0 s2.
+      destruct (const_false c); [apply IHe3|apply IHe2]; exact Hev.
+    + cbn [eval]. rewrite E2. destruct (const_false c); [apply IHe3|apply IHe2]; exact Hev.
+  - rewrite eval_Seq in Hev. cbn [simplify]. rewrite eval_collapse. apply seq_sound0; assumption.
+  - cbn in Hev. discriminate.
+  - destruct e; try (cbn in Hev; discriminate).
+    + rewrite eval_App_Ref in Hev. destruct ((x =? OUT) && (loc =? 0)) eqn:EO; [|discriminate].
+      destruct args as [|a [|b t]]; try discriminate.
+      destruct (eval a s) as [[va|] [r2 o2]] eqn:Ea; [|discriminate].
+      inversion H as [|? ? Ha _]; subst. cbn [simplify map lookup_subst]. rewrite eval_App_Ref, EO, (Ha _ _ _ Ea). exact Hev.
+    + rewrite eval_App_Lam in Hev. destruct rest; [discriminate|].
+      destruct (Nat.eqb (length ps) (length args)) eqn:ELen; [|discriminate].
+      destruct (eval_args args s) as [[vs|] [r2 o2]] eqn:Eargs; [|discriminate].
+      cbn [simplify]. rewrite eval_App_Lam, map_length, ELen, (args_sound0 _ H _ _ _ Eargs). exact Hev.
+    + rewrite eval_App_Op in Hev. destruct (eval_args args s) as [[vs|] s2] eqn:Eargs; [|discriminate]. inversion Hev; subst.
+      pose proof (args_sound0 _ H _ _ _ Eargs) as E2.
+      cbn [simplify]. destruct (is_arith o); [|rewrite eval_App_Op, E2; reflexivity].
+      destruct (all_simple (map (fun a => simplify a [] false) args)) as [cs|] eqn:EAS; [|rewrite eval_App_Op, E2; reflexivity].
+      rewrite (all_simple_eval _ _ s EAS) in E2. inversion E2; subst cs s1.
+      destruct (prim_eval o vs) as [c|] eqn:EP; [reflexivity|discriminate].
+  - cbn in Hev. discriminate.
+Qed.
+
+Theorem sexp_simplify_sound : forall e s v s1, eval e s = (Some v, s1) -> eval (sexp_simplify e) s = (Some v, s1).
+Proof. intros e s v s1 H. apply (sexp_simplify_sound_gen e s v s1 H). Qed.
